@@ -353,9 +353,9 @@ def parsePcProg (s : String) : Option (CMode × List PcOp) :=
         pure (.none, ops.flatten)
 
 def pcStep (s : PStore) : PcOp → Res PStore
-  | .set id k v => .ok (s.set id k v)
-  | .remove id k => .ok (s.remove id k)
-  | .removeAll id => .ok (s.removeAll id)
+  | .set id k v => s.set id k v
+  | .remove id k => s.remove id k
+  | .removeAll id => s.removeAll id
   | .force => .ok s.forceCompressAll
   | .compressAll => .ok s.compressAll
   | .enable k m => s.enableCompression k m
@@ -368,10 +368,14 @@ def pcRun (s : PStore) : List PcOp → Res PStore
     | .panic => .panic
 
 /-- the same program with compression switched off: mode `None`, compression requests ignored -/
+def okOr (s : PStore) : Res PStore → PStore
+  | .ok s' => s'
+  | _ => s
+
 def pcStepRef (s : PStore) : PcOp → PStore
-  | .set id k v => s.set id k v
-  | .remove id k => s.remove id k
-  | .removeAll id => s.removeAll id
+  | .set id k v => okOr s (s.set id k v)
+  | .remove id k => okOr s (s.remove id k)
+  | .removeAll id => okOr s (s.removeAll id)
   | _ => s
 
 def insKV (kv : Nat × PV) : List (Nat × PV) → List (Nat × PV)
@@ -380,6 +384,11 @@ def insKV (kv : Nat × PV) : List (Nat × PV) → List (Nat × PV)
 
 def sortKV (l : List (Nat × PV)) : List (Nat × PV) := l.foldr insKV []
 
+def resPV : Res (Option PV) → String
+  | .ok o => optPV o
+  | .err => "err"
+  | .panic => "panic"
+
 def pcQuery (s : PStore) (q : String) : Option String :=
   let r := tailS q
   match headC q with
@@ -387,17 +396,18 @@ def pcQuery (s : PStore) (q : String) : Option String :=
     | [id, k] => do
       let id ← id.toNat?
       let k ← k.toNat?
-      pure (optPV (s.get id k))
+      pure (resPV (s.get id k))
     | _ => none
   | 'a' => do
     let id ← r.toNat?
-    let kv := sortKV (s.getAll id)
-    pure ("{" ++ joinWith "&" (kv.map (fun (k, v) => s!"k{k}={pvTok v}")) ++ "}")
+    match s.getAll id with
+    | .ok l => pure ("{" ++ joinWith "&" ((sortKV l).map (fun (k, v) => s!"k{k}={pvTok v}")) ++ "}")
+    | _ => pure "panic"
   | 'B' => match r.splitOn ":" with
     | [k, ids] => do
       let k ← k.toNat?
       let ids ← (ids.splitOn ".").mapM (·.toNat?)
-      pure ("[" ++ joinWith "." (ids.map (fun id => optPV (s.get id k))) ++ "]")
+      pure ("[" ++ joinWith "." (ids.map (fun id => resPV (s.get id k))) ++ "]")
     | _ => none
   | _ => none
 
@@ -734,17 +744,14 @@ def handle (args : List String) : Option Out :=
           else if op == "sbv.sel1" then (resOptNat (s.select1 i), optNatS (Spec.select true bs i 0))
           else (resOptNat (s.select0 i), optNatS (Spec.select false bs i 0))
         pure { model := m, spec := sp,
-               sig := dev (m == sp) (if s.noTruncB then "sbv-rank-select" else "sbv-u8-block-rank-truncated") }
+               sig := dev (m == sp) "sbv-rank-select" }
       | _ => pure { model := "panic" }
     else if op == "ef.get" || op == "ef.contains" || op == "ef.pred" || op == "ef.succ" then do
       let xs ← parseU64s p
       let i ← i.toNat?
       let sorted := strictlyIncreasing xs
       let e := EF.new xs
-      let trunc := match e with
-        | .ok e => !e.upper.noTruncB
-        | _ => false
-      let sg := if trunc then "ef-u8-block-rank-truncated" else if xs.any (· ≥ 2 ^ 63 - 1) then "ef-extreme-value" else "ef-lossy"
+      let sg := if xs.any (· ≥ 2 ^ 63 - 1) then "ef-extreme-value" else "ef-lossy"
       let m := match e with
         | .ok e =>
           if op == "ef.get" then resNatS (e.get i)
@@ -768,9 +775,6 @@ def handle (args : List String) : Option Out :=
       let xs ← parseU64s p
       let i ← i.toNat?
       let w := WT.new xs
-      let trunc := match w with
-        | .ok w => w.levels.any (fun l => !l.noTruncB)
-        | _ => false
       let m := match w with
         | .ok w => if op == "wt.access" then resNatS (w.access i) else resNatS (w.rank i w.len)
         | _ => "panic"
@@ -778,7 +782,7 @@ def handle (args : List String) : Option Out :=
           | some v => toString v
           | none => "panic")
         else toString (Spec.symRank xs i xs.length)
-      pure { model := m, spec := sp, sig := dev (m == sp) (if trunc then "wt-u8-block-rank-truncated" else "wt-lossy") }
+      pure { model := m, spec := sp, sig := dev (m == sp) "wt-lossy" }
     else none
   -- ── Elias-Fano ──
   | ["ef.info", l] => do
@@ -792,13 +796,10 @@ def handle (args : List String) : Option Out :=
     let m := match e with
       | .ok e => resListS e.decode
       | _ => "panic"
-    let trunc := match e with
-      | .ok e => !e.upper.noTruncB
-      | _ => false
     let sp := if strictlyIncreasing xs then "ok:" ++ natList xs else "-"
     pure { model := m, spec := sp,
            sig := if sp == "-" then "-" else dev (m == sp)
-             (if trunc then "ef-u8-block-rank-truncated" else if xs.any (· ≥ 2 ^ 63 - 1) then "ef-extreme-value" else "ef-lossy") }
+             (if xs.any (· ≥ 2 ^ 63 - 1) then "ef-extreme-value" else "ef-lossy") }
   -- ── wavelet tree ──
   | ["wt.info", l] => do
     let xs ← parseU64s l
@@ -811,25 +812,19 @@ def handle (args : List String) : Option Out :=
     let m := match w with
       | .ok w => resListS w.decode
       | _ => "panic"
-    let trunc := match w with
-      | .ok w => w.levels.any (fun l => !l.noTruncB)
-      | _ => false
     let sp := "ok:" ++ natList xs
-    pure { model := m, spec := sp, sig := dev (m == sp) (if trunc then "wt-u8-block-rank-truncated" else "wt-lossy") }
+    pure { model := m, spec := sp, sig := dev (m == sp) "wt-lossy" }
   | [op, l, s, i] =>
     if op == "wt.rank" || op == "wt.select" then do
       let xs ← parseU64s l
       let s ← s.toNat?
       let i ← i.toNat?
       let w := WT.new xs
-      let trunc := match w with
-        | .ok w => w.levels.any (fun l => !l.noTruncB)
-        | _ => false
       let m := match w with
         | .ok w => if op == "wt.rank" then resNatS (w.rank s i) else resOptNat (w.select s i)
         | _ => "panic"
       let sp := if op == "wt.rank" then toString (Spec.symRank xs s i) else optNatS (Spec.symSelect s xs i 0)
-      pure { model := m, spec := sp, sig := dev (m == sp) (if trunc then "wt-u8-block-rank-truncated" else "wt-lossy") }
+      pure { model := m, spec := sp, sig := dev (m == sp) "wt-lossy" }
     else none
   | _ => none
 
